@@ -181,10 +181,13 @@ fn mutate_text(rng: &mut Rng, valid: &[u8], sep: &[u8]) -> Vec<u8> {
 }
 
 fn gen_kv_input(rng: &mut Rng, sep: &[u8]) -> (Vec<u8>, &'static str) {
-    let keys = ["x", "x", "x", "alpha", "beta", "gamma", "list", "y", "title", "zzz"];
+    // (Max-Age: with the "; " separator these pairs read as Set-Cookie directives to the accessor entry of the "other" table)
+    let keys = ["x", "x", "x", "alpha", "beta", "gamma", "list", "y", "title", "zzz", "Max-Age", "Max-Age"];
     // values include the delimiters of each format's value grammar: quotes (cookie values may be double-quoted), lone and doubled
-    let vals: [&[u8]; 27] = [b"1", b"true", b"false", b"-5", b"255", b"256", b"1.5", b"a", b"%E7%8B%BC", b"hello%20world", b"", b"a,b,c", b"1,2", b"Red", b"dark%20blue", b"U", b"N", b"18446744073709551616",
-        b"\"", b"\"\"", b"\"a", b"a\"", b"\"a\"", b"\"\"\"", b"%", b"%4", b"+"];
+    let vals: [&[u8]; 33] = [b"1", b"true", b"false", b"-5", b"255", b"256", b"1.5", b"a", b"%E7%8B%BC", b"hello%20world", b"", b"a,b,c", b"1,2", b"Red", b"dark%20blue", b"U", b"N", b"18446744073709551616",
+        b"\"", b"\"\"", b"\"a", b"a\"", b"\"a\"", b"\"\"\"", b"%", b"%4", b"+",
+        // around 2^64 and 2^63: where hand-written overflow guards are off by a digit
+        b"18446744073709551615", b"18446744073709551617", b"18446744073709551619", b"18446744073709551620", b"9223372036854775808", b"00018446744073709551616"];
     match rng.below(10) {
         0 => ({ let n = rng.below(60); rng.bytes(n) }, "random-bytes"),
         9 if rng.chance(1, 3) => {
@@ -371,12 +374,14 @@ pub fn run(args: &Args, rep: &mut Report) {
     let tables: Vec<(&str, Vec<(&'static str, Call)>)> = vec![("urlencoded", urlencoded_table()), ("cookie", cookie_table()), ("multipart", multipart_table()), ("other", other_table())];
     if args.shard == 0 && args.start == 0 {
         // witnesses of the repaired findings (and of inputs seeded changes needed), whatever the seed
-        let w: [(&str, &[u8]); 9] = [
+        let w: [(&str, &[u8]); 11] = [
             ("urlencoded", b"x=1=2"), ("urlencoded", b"x=%FF&y"), ("cookie", b"x=%FF"), ("cookie", b"x=\""), ("cookie", b"x=\"; y=\"\""),
             ("multipart", b"--b\r\nContent-Disposition: form-data; name=\"x\"; filename=\"\"\r\nContent-Type: application/octet-stream\r\n\r\n\r\n--b--\r\n"),
             ("multipart", b"--b\r\nContent-Disposition: form-data; name=\"x\"\r\n\r\n--b--\r\n"),
             ("other", b"aaaaaaaaaaaaaaaaaaaaaaaaaaaaaaaaaaaaaaaaaaaa; Max-Age=x; Max-Age=99999999999999999999999999"),
             ("other", b"aaaaaaaaaaaa; Max-Age=\"7\""),
+            ("other", b"aaaaaaaaaaaaaaaaaaaaaaaaaaaaaaaaaaaa; Max-Age=18446744073709551619"),
+            ("other", b"aaaaaaaaaaaaaaaaaaaaaaaaaaaaaaaaaaaa; Max-Age=18446744073709551616"),
         ];
         for (k, (d, input)) in w.iter().enumerate() {
             let (dname, table) = tables.iter().find(|(n, _)| n == d).unwrap();
